@@ -466,8 +466,10 @@ def features_section(ctx):
             ("dotbelowcomb", 0x323, 0, [("_bottom", 0, -20)], "mark"),
             ("tildemod", 0x2DC, 300, [("_top", 150, 480)], "mark"),        # spacing marks: category mark, advance > 0
             ("ring.old", None, 250, [("_top", 125, 480)], "mark"),
-            ("f_i", None, 700, [("top_1", 150, 700), ("top_2", 500, 700)], "ligature")]
-    candidates = ["ring.old", "acutecomb.alt", "V.alt", "o", "tildemod", "f_i", "dotbelowcomb"]
+            ("f_i", None, 700, [("top_1", 150, 700), ("top_2", 500, 700)], "ligature"),
+            # the FOURTH class: parts of glyphs, categorised "component"
+            ("f.part", None, 300, [], "component"), ("i.part", None, 250, [], "component")]
+    candidates = ["ring.old", "acutecomb.alt", "V.alt", "o", "tildemod", "f_i", "dotbelowcomb", "i.part", "f.part"]
     for i in range(ctx.budget(14, 70)):
         skip = [c for k, c in enumerate(candidates) if ((i * 37 + 5) >> k) & 1] or [candidates[i % len(candidates)]]
         if i % 7 == 6:
